@@ -69,3 +69,54 @@ def example_batch(seed):
     if ctx is not None:
         ctx.cls('conversion-example-batch:%d' % b)
     return b
+
+
+def maybe_clone(nas, seed):
+    """In a sixth of the cases the check goes on with a `copy.deepcopy` of the freshly converted model
+    (the usual snapshot / best-model idiom) while the *original's* architectural parameters are
+    scrambled: whatever a copy still reads from the original (a closure, a bound method, a module
+    reference kept outside the module tree) then disagrees with the copy's own parameters, and the
+    check's own oracle sees it.  A deep copy is a model of its own by PyTorch's contract, so no
+    oracle changes."""
+    ctx = _state['ctx']
+    if ctx is None or (int(seed) // 13) % 6 != 2:
+        return nas
+    import copy
+    try:
+        clone = copy.deepcopy(nas)
+    except Exception as e:     # (deep copies fail after a grad-mode forward; not right after conversion)
+        ctx.count('clone_failed')
+        ctx.extra.setdefault('clone_first_error', repr(e)[:160])
+        return nas
+    g = torch.Generator().manual_seed(int(seed) % (2 ** 31) + 99)
+    with torch.no_grad():
+        for _n, p in nas.named_nas_parameters():
+            p.copy_(torch.randn(p.shape, generator=g).to(p.dtype) * 2.0)
+    clone.train(nas.training)
+    ctx.cls('neutral-prefix:deepcopy-original-scrambled')
+    ctx.count('clones')
+    return clone
+
+
+def maybe_freeze(nas, seed):
+    """In a third of the cases one of the trainability controls is applied after the architectural
+    parameters were assigned (the phase of a search in which a parameter group is frozen): whether
+    a mask / coefficient is *trainable* must not change what it *is* - costs, summary and export
+    read values, not requires_grad flags."""
+    ctx = _state['ctx']
+    if ctx is None:
+        return None
+    r = (int(seed) // 17) % 6
+    what = None
+    if r == 1:
+        nas.train_net_only()
+        what = 'train_net_only'
+    elif r == 3:
+        nas.train_nas_only()
+        what = 'train_nas_only'
+    elif r == 5 and hasattr(type(nas), 'train_features'):
+        nas.train_features = False
+        what = 'train_features=False'
+    if what:
+        ctx.cls('neutral-suffix:' + what)
+    return what
